@@ -17,7 +17,14 @@ RULE = ('exhaustive grid: 1..3 fields (4..5 sampled) x {slots, order, kw_only} x
         'family puts every such shape (Z(list), Z(dict), Z(set), Z(Z(list)) over two classes, depth 3 over three classes, (Z(list),), [Z(dict)], {k: Z(set)}, Z(object holding a '
         'list), one instance referenced twice, hashable Z as dict key / in a frozenset / in a set, Z of atoms, an instance of the class under test itself) into every field '
         "position x options x shapes x every subset of fields to replace x both methods; attribute cases: set / del of "
-        'every field, of init=False fields, of new names, set-then-del sequences; comparison cases: equal twin, one field changed at '
+        'every field, of init=False fields, of new names, set-then-del sequences, and of names that are no fields but not new either - the added methods copy_with / '
+        'deep_copy_with / validate_types, special method names (__setattr__, __delattr__, __doc__, __eq__, __hash__, __post_init__, __init__), __class__ (value: another class) '
+        'and __dict__ - each as set / del / set and del-first sequences and followed by field operations, on every class shape with and without slots; histories: one '
+        'original, then copy_with / deep_copy_with calls on it and on earlier copies (every kind of replacement) interleaved with in-place changes (append / add / new key / '
+        'overwrite / clear) of the lists / dicts / sets / objects the fields refer to - through the original, through a shallow or deep copy, at the top of a field value and '
+        'deep inside it (behind tuples, objects, frozen instances): 7 directed shapes (deep, change the copy, deep again; deep, change the original, deep again; ... three deep '
+        'copies in a row) + random ones x options x class shapes x 1..3 fields, every copy judged against the receiver as it is at that moment and against every instance '
+        'alive then; comparison cases: equal twin, one field changed at '
         'each position, other class of the hierarchy, unhashable / incomparable values, frozen instances as field values (each comparison first hashes and drops a '
         'short-lived instance of the same class with other field values).  non-trivial = copy with a mutable field value, '
         'or any attribute / comparison case')
@@ -33,8 +40,21 @@ ASSUMPTIONS = ['field annotations are typing.Any and type_safe validation is obs
                'scope), everything reachable through its fields is',
                '"equal to the original\'s value" for an un-replaced field of deep_copy_with is read as: the same value up to object identities (same shape, same '
                'classes, equal atoms) - Python\'s == wherever no instance with identity equality is involved (theorem seq_veq_of_noObj), and the only possible reading beyond',
-               'user __post_init__ hooks only journal; factories return fresh structural copies of a literal']
-TRUSTED = ['copy.deepcopy of an instance of a frozen dataclass is modelled as "a new instance of the same class whose fields are deep copies" (object.__reduce_ex__ / '
+               'user __post_init__ hooks only journal; factories return fresh structural copies of a literal',
+               'histories: in-place changes are made to lists / dicts / sets / instances of the plain class that are reachable from an init field without passing through a set, '
+               'a frozenset or a dict key; nothing below an init=False field is changed (such a field is recomputed by __init__, so a copy does not carry the change - guard mutSafe '
+               'of history_copies_meet_spec; observed on the real library: x.log.append(7) on `log: list = field(default_factory=list, init=False)` is lost by copy_with), no object '
+               'is referenced twice inside one field value (deepcopy\'s memo is not modelled), keyword objects are new objects; the driver re-checks all of this per case (histOk)',
+               'the value assigned to __class__ is an ordinary class with the layout of a slot-free instance, the value assigned to __dict__ a new empty dict; names that are no '
+               'fields on an instance of an undecorated subclass (slot-free hierarchy) are the recorded finding undecoratedSubclassAllowsNewAttributes, whatever the name']
+TRUSTED = ['object.__setattr__ / object.__delattr__ for the names the generated frozen __setattr__ / __delattr__ let through are transcribed: an ordinary name (also the name of a '
+           'method or a special method) is a key of the instance __dict__; __class__ re-classes the object (then nothing is frozen any more), del __class__ is a TypeError; '
+           '__dict__ = {} / del __dict__ drop every attribute that is not in a slot.  That the generated methods are the ones in force is the translator fact attrProtocolHooks = [] '
+           '(lemma cfg_no_attr_hooks); with a hook the model reads every assignment as reaching object.__setattr__ and the immutability theorems no longer check',
+           'a history step applies a copy method to the current value of the receiver and nothing else: translator fact copyHelpersStateless (no function reachable from the copy '
+           'methods has a mutable default argument, a global / nonlocal statement, a read of a shared mutable or a store outside its locals; lemma cfg_copy_helpers_stateless); an '
+           'in-place change is applied by identity to every live instance (validated by the per-step "which field of which instance changed" facts)',
+           'copy.deepcopy of an instance of a frozen dataclass is modelled as "a new instance of the same class whose fields are deep copies" (object.__reduce_ex__ / '
            'copyreg.__newobj__ / copy._reconstruct, with the __getstate__ / __setstate__ that dataclasses adds under slots=True) as long as the translator finds no copy-protocol '
            'special method (__deepcopy__, __copy__, __reduce__, __reduce_ex__, __getstate__, __setstate__, __getnewargs__, __getnewargs_ex__, __replace__) installed by the '
            'decorator (generated fact copyProtocolHooks = [], lemma cfg_no_copy_hooks); with such a hook the model reads deepcopy as returning the instance itself, the heap '
@@ -49,7 +69,12 @@ FINDING = 'undecoratedSubclassAllowsNewAttributes'
 # turned into a property failure with this finding id only if the strict reading of appendix E is switched on.
 STRICT_EXCEPTION_CLASS = False
 FINDING_CLASS = 'slotsNewAttributeRaisesTypeError'
-NEW = 100        # names >= NEW are not fields ("zzz<n>")
+NEW = 100        # names >= NEW are not fields: "zzz<n>", or one of the special names below
+# names that are not fields but mean something to the class or to `object`: the methods the decorator adds, special method names, and the two
+# data descriptors of `object` (__class__: assigning re-classes the object; __dict__: assigning / deleting replaces all instance attributes)
+SPECIAL = {200: 'copy_with', 201: 'deep_copy_with', 202: 'validate_types', 203: '__setattr__', 204: '__delattr__', 205: '__doc__',
+           206: '__eq__', 207: '__hash__', 208: '__post_init__', 209: '__init__', 210: '__class__', 211: '__dict__'}
+NAME_CLASS, NAME_DICT = 210, 211
 
 # ------------------------------------------------------------------ values (JSON terms with identities)
 
@@ -79,9 +104,10 @@ def vkey(j):
 class Vals:
     """generator of value terms; every tuple / list / dict / set gets a fresh identity; earlier mutable nodes may be re-used (aliasing)"""
 
-    def __init__(self, rng, start, zself=None):
+    def __init__(self, rng, start, zself=None, alias=True):
         # zself = (cid, number of fields) when instances of the class under test itself may be nested in values (see zself_of)
-        self.r, self.n, self.pool, self.opool, self.zpool, self.zself = rng, start, [], [], [], zself
+        # alias = False: no node is referenced twice (histories: deepcopy's memo, which keeps such references together, is not modelled)
+        self.r, self.n, self.pool, self.opool, self.zpool, self.zself, self.alias = rng, start, [], [], [], zself, alias
 
     def fresh(self):
         self.n += 1
@@ -99,7 +125,7 @@ class Vals:
     def obj(self, depth=1):
         """instance of the plain user class: attributes a0, a1, … hold arbitrary values; hashable (identity) and mutable"""
         r = self.r
-        if self.opool and r.random() < 0.1:
+        if self.alias and self.opool and r.random() < 0.1:
             return r.choice(self.opool)
         v = ['o', self.fresh(), [self.value(depth - 1) for _ in range(r.randint(0, 2))]]
         self.opool.append(v)
@@ -109,7 +135,7 @@ class Vals:
         """instance of a @frozen_dataclass class (a helper class, now and then the class under test itself) whose field values come
         from `gen(depth)`: hashable iff all of them are; never mutable itself, whatever it holds"""
         r = self.r
-        if reuse and self.zpool and r.random() < 0.12:
+        if self.alias and reuse and self.zpool and r.random() < 0.12:
             return r.choice(self.zpool)
         if allow_self and self.zself and r.random() < 0.25:
             cid, ar = self.zself
@@ -145,7 +171,7 @@ class Vals:
 
     def mutable(self, depth):
         r = self.r
-        if self.pool and r.random() < 0.12:
+        if self.alias and self.pool and r.random() < 0.12:
             return r.choice(self.pool)
         k = r.randrange(3)
         if k == 0:
@@ -547,6 +573,18 @@ def attr_cases(rng, v0, cls, shape_tag):
         seqs.append([['del', n], ['set', n]])
     seqs += [[['set', NEW]], [['del', NEW]], [['set', NEW], ['del', NEW]], [['set', NEW], ['set', NEW], ['del', NEW], ['del', NEW]],
              [['set', NEW], ['set', NEW + 1], ['del', NEW + 1], ['set', fs[0][0] if fs else NEW]]]
+    # names that are no fields but are not new either: added methods, special methods, __class__ (value: another class), __dict__
+    f0 = fs[0][0] if fs else NEW
+    sp = sorted(SPECIAL)
+    for n in sp:
+        seqs.append([['set', n], ['del', n], ['set', n]])
+    k0 = rng.randrange(len(sp))
+    for n in [sp[(k0 + 3 * i) % len(sp)] for i in range(4)]:
+        seqs.append([['del', n], ['set', n], ['del', n], ['del', n]])
+    seqs += [[['set', NAME_CLASS], ['set', f0], ['del', f0], ['del', f0], ['set', NEW]],       # once re-classed nothing is frozen any more
+             [['set', NAME_DICT], ['del', f0], ['set', NEW], ['set', f0]],
+             [['del', NAME_DICT], ['set', 200], ['del', 200], ['del', f0]],
+             [['set', 200], ['set', NAME_CLASS], ['del', 200], ['set', NAME_DICT], ['del', NAME_CLASS]]]
     for s in seqs:
         v = Vals(rng, base_n, zself_of(cls))
         ctor = ctor_for(rng, v, cls)
@@ -753,6 +791,140 @@ def frozen_nested_cases(rng, shapes, opts_list, rounds=2):
     return out
 
 
+# ---- histories
+
+def nav_children(j):
+    """[(index, child term)] the way a path enters a node: tuple / list / object / frozen instance items, dict *values* (odd indices)"""
+    t = j[0]
+    if t in 'tloz':
+        return list(enumerate(j[2]))
+    if t == 'd':
+        return [(i, x) for i, x in enumerate(j[2]) if i % 2 == 1]
+    return []
+
+
+def mutable_paths(j, prefix=()):
+    """paths to every list / dict / set / plain object that can be reached without passing through a set, a frozenset or a dict key"""
+    out = [(prefix, j)] if j[0] in 'ldeo' else []
+    for i, x in nav_children(j):
+        out += mutable_paths(x, prefix + (i,))
+    return out
+
+
+class HistSim:
+    """what the generator knows about the objects of a history: terms shared by reference exactly where the real objects are shared
+    (a shallow copy holds the receiver's term objects, a deep copy a structural copy), so that an in-place change made through one
+    instance is seen through every instance that shares the object; only used to choose valid paths and mutations"""
+
+    def __init__(self, rng, v, fields0):
+        self.r, self.v, self.insts, self.steps, self.k = rng, v, [dict(fields0)], [], 0
+
+    def copy(self, deep, on, replace):
+        kw = [[n, self.v.value(2)] for n in replace]
+        new = {}
+        for n, t in self.insts[on].items():
+            new[n] = copy.deepcopy(t) if deep else t
+        for n, t in kw:
+            new[n] = copy.deepcopy(t)        # the step keeps the term as it is passed; the instance holds an object that may change later
+        # the object passed IS the object held: share the reference, but send an unchanged snapshot to both sides
+        self.steps.append(['copy', deep, [[n, copy.deepcopy(t)] for n, t in kw], on])
+        self.insts.append(new)
+        return len(self.insts) - 1
+
+    def mutate(self, on, depth_pref=None):
+        """change one mutable object reachable from instance `on` in place; False if there is none"""
+        r = self.r
+        cands = [(n, p, node) for n, t in self.insts[on].items() for p, node in mutable_paths(t)]
+        if not cands:
+            return False
+        if depth_pref == 'deep':
+            m = max(len(p) for _, p, _ in cands)
+            cands = [c for c in cands if len(c[1]) == m]
+        elif depth_pref == 'top':
+            m = min(len(p) for _, p, _ in cands)
+            cands = [c for c in cands if len(c[1]) == m]
+        n, p, node = r.choice(cands)
+        self.k += 1
+        fresh = ['i', 900 + self.k]                # an atom no generated value contains: a new dict key / set member for sure
+        t, items = node[0], node[2]
+        kinds = ['push']
+        if items and t in 'ldeo':
+            kinds.append('clear')
+        if items and t in 'lo':
+            kinds.append('setAt')
+        if t == 'd' and items:
+            kinds.append('setAt')
+        kind = r.choice(kinds)
+        if kind == 'push':
+            m = ['push', [fresh, ['s', [109]]]] if t == 'd' else ['push', [fresh]]
+            items.extend(copy.deepcopy(m[1]))
+        elif kind == 'setAt':
+            i = r.choice([i for i in range(len(items)) if t != 'd' or i % 2 == 1])
+            m = ['setAt', i, fresh]
+            items[i] = fresh
+        else:
+            m = ['clear']
+            del items[:]
+        self.steps.append(['mut', on, n, list(p), m])
+        return True
+
+
+HIST_TEMPLATES = ['deep-mutcopy-deep', 'deep-mutorig-deep', 'deep-mutcopy-shallow-deep', 'shallow-mutorig-deep-mutcopy-deep', 'deep-deep',
+                  'mutorig-deep-mutorig-deep', 'deep-deepofcopy-mut-deepofcopy', 'random']
+
+
+def hist_cases(rng, shapes, opts_list, rounds=1):
+    """directed + random histories on one original: copies (both methods, of the original and of earlier copies, with every kind of
+    replacement) interleaved with in-place changes of the lists / dicts / sets / objects the fields refer to — through the original,
+    through a copy, at the top of a field value and deep inside it (also behind tuples and frozen instances)"""
+    out = []
+    for opts in opts_list:
+        for shape in shapes:
+            for nf in (1, 2, 3):
+                for tpl in HIST_TEMPLATES:
+                    for rnd in range(rounds):
+                        v = Vals(rng, 0, alias=False)
+                        # init=False fields may be present (a copy recomputes them), but nothing below them is changed in place
+                        kinds = [rng.choice(['req', 'req', 'req', 'df', 'dv', 'nv', 'nf']) for _ in range(nf)]
+                        if all(k in ('nv', 'nf') for k in kinds):
+                            kinds[rng.randrange(nf)] = 'req'
+                        cls = mk_class(rng, v, nf, kinds, opts, shape, opts, ts=rng.random() < 0.15, post=rng.random() < 0.2)
+                        st = f"{shape}/s{int(opts[0])}o{int(opts[1])}k{int(opts[2])}"
+                        names = [n for (n, f, kwo) in resolved(cls) if f['init']]
+                        # every field is passed, and at least one holds something that can be changed in place
+                        vals = {n: v.value(3) for n in names}
+                        if not any(mutable_paths(t) for t in vals.values()):
+                            vals[rng.choice(names)] = v.mutable(2)
+                        ctor = {'pos': [], 'kw': [[n, copy.deepcopy(vals[n])] for n in names]}
+                        h = HistSim(rng, v, vals)
+
+                        def sub():
+                            return rng.sample(names, rng.randint(0, len(names) - 1)) if rng.random() < 0.5 else []
+                        pref = rng.choice([None, 'deep', 'top'])
+                        if tpl == 'deep-mutcopy-deep':
+                            c1 = h.copy(True, 0, []); h.mutate(c1, pref); h.copy(True, 0, sub())
+                        elif tpl == 'deep-mutorig-deep':
+                            h.copy(True, 0, []); h.mutate(0, pref); h.copy(True, 0, sub())
+                        elif tpl == 'deep-mutcopy-shallow-deep':
+                            c1 = h.copy(True, 0, []); h.mutate(c1, pref); c2 = h.copy(False, 0, sub()); h.copy(True, c2, [])
+                        elif tpl == 'shallow-mutorig-deep-mutcopy-deep':
+                            c1 = h.copy(False, 0, sub()); h.mutate(0, pref); c2 = h.copy(True, c1, []); h.mutate(c2, pref); h.copy(True, 0, [])
+                        elif tpl == 'deep-deep':
+                            h.copy(True, 0, sub()); h.copy(True, 0, []); h.copy(True, 0, sub())
+                        elif tpl == 'mutorig-deep-mutorig-deep':
+                            h.mutate(0, pref); h.copy(True, 0, []); h.mutate(0, pref); h.copy(True, 0, []); h.copy(False, 0, [])
+                        elif tpl == 'deep-deepofcopy-mut-deepofcopy':
+                            c1 = h.copy(True, 0, sub()); h.copy(True, c1, []); h.mutate(c1, pref); h.copy(True, c1, []); h.copy(True, 0, [])
+                        else:
+                            for _ in range(rng.randint(3, 7)):
+                                if rng.random() < 0.45:
+                                    h.mutate(rng.randrange(len(h.insts)), rng.choice([None, 'deep', 'top']))
+                                else:
+                                    h.copy(rng.random() < 0.65, rng.randrange(len(h.insts)), sub())
+                        out.append(finish(cls, ctor, ['hist', h.steps], v, f'hist-{tpl}/{st}'))
+    return out
+
+
 def invalid_defs(rng):
     """near misses at class-definition time"""
     out = []
@@ -800,6 +972,7 @@ def cases(rng, tier):
     if tier == 'quick':
         out += hashmut_cases(rng, SHAPES, [(False, False, True), (True, True, False)])
         out += frozen_nested_cases(rng, SHAPES, [(False, False, True), (True, False, False), (True, True, True)])
+        out += hist_cases(rng, SHAPES, [(False, False, True), (True, True, False), (False, True, True)])
         out += grid(rng, [1, 2, 3], SHAPES[:3], 2)
         out += grid(rng, [2, 3], SHAPES[3:], 1)
         out += grid(rng, [4, 5], SHAPES, 1)[::3]
@@ -807,6 +980,7 @@ def cases(rng, tier):
     else:
         out += hashmut_cases(rng, SHAPES, OPTS)
         out += frozen_nested_cases(rng, SHAPES, OPTS, rounds=4)
+        out += hist_cases(rng, SHAPES, OPTS, rounds=6)
         out += grid(rng, [1, 2, 3], SHAPES, 12, full=True)
         out += grid(rng, [4, 5], SHAPES, 4, full=True)
         out += kinds_grid(rng, [1, 2, 3], SHAPES)
@@ -814,7 +988,7 @@ def cases(rng, tier):
 
 
 def search(rng, tier, near):
-    return frozen_nested_cases(rng, SHAPES, OPTS) + hashmut_cases(rng, SHAPES, OPTS) + grid(rng, [1, 2, 3], SHAPES, 2, full=True)
+    return hist_cases(rng, SHAPES, OPTS, rounds=2) + frozen_nested_cases(rng, SHAPES, OPTS) + hashmut_cases(rng, SHAPES, OPTS) + grid(rng, [1, 2, 3], SHAPES, 2, full=True)
 
 
 # ------------------------------------------------------------------ implementation side
@@ -825,11 +999,12 @@ _J = []
 
 
 def fname(n):
-    return f'f{n}' if n < NEW else f'zzz{n}'
+    return f'f{n}' if n < NEW else SPECIAL.get(n, f'zzz{n}')
 
 
 def module_source(cls):
-    lines = ['import dataclasses', 'from typing import Any', 'from pedantic import frozen_dataclass', ''] + ZSOURCE
+    lines = ['import dataclasses', 'from typing import Any', 'from pedantic import frozen_dataclass', '',
+             'class Other:', '    """an ordinary class with the layout of a slot-free instance: the value assigned to __class__"""', ''] + ZSOURCE
     for i in range(len(cls) - 1, -1, -1):
         l = cls[i]
         base = f"(K{cls[i + 1]['cid']})" if i + 1 < len(cls) else ''
@@ -983,8 +1158,24 @@ def exc_name(e):
     return type(e).__name__
 
 
-def run_copy(inst, allnames, deep, kwj, memo):
+def inst_state(inst, allnames):
+    """what must not change when an instance is only read: identities and values of its fields, the names in its __dict__"""
+    snap = snapshot(inst, allnames)
+    return (snap, {n: json.dumps(canon(x)) for n, x in snap.items() if x is not _UNSET}, set(getattr(inst, '__dict__', {})))
+
+
+def state_same(inst, allnames, st):
+    before, before_c, extra = st
+    after = snapshot(inst, allnames)
+    return (all((after[n] is before[n]) or (after[n] is not _UNSET and before[n] is not _UNSET and same(after[n], before[n])) for n in allnames)
+            and all(json.dumps(canon(after[n])) == before_c[n] for n in before_c)
+            and set(getattr(inst, '__dict__', {})) == extra)
+
+
+def run_copy(inst, allnames, deep, kwj, memo, live=None, made=None):
+    """`live`: every instance alive when the copy is made (default: the receiver alone); `made`: list that receives the copy"""
     kw = {fname(n): build(j, memo) for n, j in kwj}
+    others = [(x, inst_state(x, allnames)) for x in (live or []) if x is not inst]
     before = snapshot(inst, allnames)
     before_c = {n: json.dumps(canon(x)) for n, x in before.items() if x is not _UNSET}
     extra_before = dict(getattr(inst, '__dict__', {}))
@@ -1004,12 +1195,20 @@ def run_copy(inst, allnames, deep, kwj, memo):
     res['selfSame'] = self_same
     if c is None:
         return res
+    if made is not None:
+        made.append(c)
+    res['othersSame'] = all(state_same(x, allnames, st) for x, st in others)
     res['journal'] = journal
     res['sameClass'] = type(c) is type(inst)
     self_mut = {}
     for n in allnames:
         if before[n] is not _UNSET:
             mut_ids(before[n], self_mut)
+    live_mut = dict(self_mut)
+    for x, st in others:
+        for n in allnames:
+            if st[0][n] is not _UNSET:
+                mut_ids(st[0][n], live_mut)
     fl = []
     for n in allnames:
         r = getattr(c, n, _UNSET)
@@ -1027,9 +1226,98 @@ def run_copy(inst, allnames, deep, kwj, memo):
                    same(r, k) if has_k else None, bool(k == r) if has_k else None,
                    len(set(rm) & set(mut_ids(s))) if has_s else 0,
                    len(set(rm) & set(self_mut)),
-                   (canon(s) == canon(r)) if has_s else None])
+                   (canon(s) == canon(r)) if has_s else None,
+                   len(set(rm) & set(live_mut))])
     res['fields'] = fl
     return res
+
+
+# ---- histories: several copies of the same objects, field objects changed in place in between
+
+def child_items(v):
+    """children by index, as the model numbers them (dict: k0, v0, k1, v1, … in insertion order); sets / frozensets are not entered"""
+    if isinstance(v, (tuple, list)):
+        return list(v)
+    if isinstance(v, dict):
+        return [x for kv in v.items() for x in kv]
+    if isinstance(v, Plain):
+        return plain_items(v)
+    if is_frozen_inst(v):
+        return frozen_items(v)
+    return None
+
+
+def resolve_path(v, path):
+    for i in path:
+        items = child_items(v)
+        if items is None or i >= len(items):
+            return _UNSET
+        v = items[i]
+    return v
+
+
+def apply_mut(v, m, memo):
+    """in-place change of a list / dict / set / plain object"""
+    kind = m[0]
+    if kind == 'push':
+        xs = [build(j, memo) for j in m[1]]
+        if isinstance(v, list):
+            v.extend(xs)
+        elif isinstance(v, set):
+            assert len(xs) == 1 and xs[0] not in v
+            v.add(xs[0])
+        elif isinstance(v, dict):
+            assert len(xs) == 2 and xs[0] not in v
+            v[xs[0]] = xs[1]
+        elif isinstance(v, Plain):
+            setattr(v, f'a{len(vars(v))}', xs[0])
+        else:
+            raise TypeError('not a mutable node')
+    elif kind == 'setAt':
+        i, x = m[1], build(m[2], memo)
+        if isinstance(v, list):
+            v[i] = x
+        elif isinstance(v, dict):
+            assert i % 2 == 1
+            v[list(v)[i // 2]] = x
+        elif isinstance(v, Plain):
+            assert f'a{i}' in vars(v)
+            setattr(v, f'a{i}', x)
+        else:
+            raise TypeError('not a mutable node')
+    else:
+        if isinstance(v, (list, dict, set)):
+            v.clear()
+        elif isinstance(v, Plain):
+            vars(v).clear()
+        else:
+            raise TypeError('not a mutable node')
+
+
+def run_hist(inst, allnames, steps, memo):
+    insts, outs = [inst], []
+    for st in steps:
+        if st[0] == 'copy':
+            _, deep, kwj, on = st
+            if on >= len(insts):
+                outs.append({'out': 'noinst'})
+                continue
+            outs.append(run_copy(insts[on], allnames, deep, kwj, memo, live=list(insts), made=insts))
+        else:
+            _, on, n, path, m = st
+            tgt = resolve_path(getattr(insts[on], fname(n), _UNSET), path) if on < len(insts) else _UNSET
+            if tgt is _UNSET or not isinstance(tgt, (list, dict, set, Plain)):
+                outs.append({'out': 'nopath'})
+                continue
+            before = [{nm: json.dumps(canon(x)) for nm, x in snapshot(i, allnames).items() if x is not _UNSET} for i in insts]
+            try:
+                apply_mut(tgt, m, memo)
+            except BaseException as e:           # the object is not what the history expects there (only on a tree that copies wrongly)
+                outs.append({'out': 'mutation-' + exc_name(e)})
+                continue
+            after = [{nm: json.dumps(canon(x)) for nm, x in snapshot(i, allnames).items() if x is not _UNSET} for i in insts]
+            outs.append({'out': 'ok', 'changed': [[[int(nm[1:]), a.get(nm) != b[nm]] for nm in allnames if nm in b] for b, a in zip(before, after)]})
+    return {'steps': outs}
 
 
 def run_attr(inst, ops, memo):
@@ -1037,7 +1325,12 @@ def run_attr(inst, ops, memo):
     for op in ops:
         try:
             if op[0] == 'set':
-                setattr(inst, fname(op[1]), build(op[2], memo))
+                val = build(op[2], memo)
+                if op[1] == NAME_CLASS:
+                    val = memo['__mod__'].Other       # re-classing needs a class
+                elif op[1] == NAME_DICT:
+                    val = {}                          # … and a new __dict__ a dict
+                setattr(inst, fname(op[1]), val)
             else:
                 delattr(inst, fname(op[1]))
             outs.append('ok')
@@ -1120,6 +1413,8 @@ def run_one(case):
     op = c['op']
     if op[0] == 'copy':
         out['op'] = run_copy(inst, allnames, op[1], op[2], memo)
+    elif op[0] == 'hist':
+        out['op'] = run_hist(inst, allnames, op[1], memo)
     elif op[0] == 'attr':
         out['op'] = run_attr(inst, op[1], memo)
     elif op[0] == 'cmp':
@@ -1164,8 +1459,21 @@ def judge(case, impl, model):
     if (io is None) != (mo is None):
         why.append('operation reached on one side only')
     elif io is not None:
-        keys = {'copy': ['out', 'sameClass', 'journal', 'fields'], 'attr': ['outs'],
+        keys = {'copy': ['out', 'sameClass', 'journal', 'fields'], 'attr': ['outs'], 'hist': [],
                 'cmp': ['ctor2', 'eq', 'eqRev', 'eqSelf', 'hash', 'hash2', 'lt', 'gt']}[op[0]]
+        if op[0] == 'hist':
+            # step by step: outcome, class, journal and per-field fact vector of every copy; which fields of which live instance a mutation changed
+            isteps, msteps = io.get('steps', []), mo.get('steps', [])
+            if len(isteps) != len(msteps):
+                why.append(f'history: {len(isteps)} impl steps, {len(msteps)} model steps')
+            for k, (a, b) in enumerate(zip(isteps, msteps)):
+                for key in ('out', 'sameClass', 'journal', 'fields', 'othersSame', 'changed'):
+                    if a.get(key) != b.get(key):
+                        why.append(f'step {k} {key}: impl {a.get(key)} model {b.get(key)}')
+                if a.get('out') == 'ok' and 'fields' in a and b.get('selfSame') is not True:
+                    why.append(f"step {k} selfSame: model {b.get('selfSame')}")
+            if mo.get('histOk') is not True:
+                why.append('generator produced a history outside the modelled ones (mutation below an init=False field, aliasing inside a value, re-used keyword object)')
         for key in keys:
             if io.get(key) != mo.get(key):
                 why.append(f'op.{key}: impl {io.get(key)} model {mo.get(key)}')
@@ -1190,33 +1498,17 @@ def judge(case, impl, model):
         if op[0] == 'copy':
             meth = 'deep_copy_with' if op[1] else 'copy_with'
             nontrivial = any(f[1] and len(f) > 6 for f in io.get('fields', [])) and any(_has_mutable(j) for _, j in c['ctor']['kw'])
-            if not io.get('selfSame', True):
-                pfail = f'{meth} changed the original instance'
-            elif s.get('valid'):
-                if io['out'] != 'ok':
-                    pfail = f"{meth} raised {io['out']} for keyword arguments that name init fields"
-                elif not io['sameClass']:
-                    pfail = f'{meth} returned an instance of another class'
-                else:
-                    exp = dict((n, e) for n, e in s['expect'])
-                    for f in io['fields']:
-                        e = exp.get(f[0])
-                        if not f[1]:
-                            pfail = f'field f{f[0]} of the copy is unset'
-                        elif e == 'replaced' and f[4] is not True:
-                            pfail = f'{meth}: field f{f[0]} is not the object passed as keyword argument'
-                        elif e == 'sameObject' and f[2] is not True:
-                            pfail = f'{meth}: un-replaced field f{f[0]} is not the object held by the original (not shallow)'
-                        elif e == 'deepEqual' and f[8] is not True:
-                            pfail = f'{meth}: un-replaced field f{f[0]} differs from the original value'
-                        elif e == 'deepEqual' and f[7] != 0:
-                            pfail = f'{meth}: un-replaced field f{f[0]} shares {f[7]} mutable object(s) with the original (not deep)'
-                        elif e == 'equalOnly' and f[8] is not True:
-                            pfail = f'{meth}: init=False field f{f[0]} differs from the original value'
-                        if pfail:
-                            break
-            elif s.get('valid') is False and io['out'] == 'ok':
-                pfail = f'{meth} accepted a keyword that is not an init field'
+            pfail = copy_pfail(meth, io, s)
+        elif op[0] == 'hist':
+            nontrivial = True
+            for k, (st, a, sp) in enumerate(zip(op[1], io.get('steps', []), s.get('steps', []))):
+                if st[0] != 'copy' or a.get('out') == 'noinst' or sp is None:
+                    continue
+                meth = 'deep_copy_with' if st[1] else 'copy_with'
+                pf = copy_pfail(meth, a, sp)
+                if pf:
+                    pfail = f'step {k} of the history ({meth} on instance {st[3]}, receiver taken as it is at that moment): {pf}'
+                    break
         elif op[0] == 'attr':
             nontrivial = True
             for k, (o, r) in enumerate(zip(op[1], io['outs'])):
@@ -1253,6 +1545,8 @@ def judge(case, impl, model):
     if io is not None:
         if op[0] == 'copy':
             sub = ('deep' if op[1] else 'shallow') + ':' + str(io.get('out'))
+        elif op[0] == 'hist':
+            sub = ','.join(('D' if st[1] else 'S') if st[0] == 'copy' else 'm' for st in op[1])[:24]
         elif op[0] == 'attr':
             sub = ','.join(sorted(set(io['outs'])))
         else:
@@ -1261,6 +1555,39 @@ def judge(case, impl, model):
         sub = impl.get('def') if impl.get('def') != 'ok' else 'ctor:' + str(impl.get('ctor'))
     return {'corr': corr, 'pfail': pfail, 'finding': finding, 'nontrivial': nontrivial,
             'tag': f"{tag.split('/')[0]}/{tag.split('/')[1] if '/' in tag else ''}/{sub}", 'why': '; '.join(why[:4])}
+
+
+def copy_pfail(meth, io, s):
+    """the copy clauses of the property on one observed call (`io`), decided with the spec values `s` for that call"""
+    if not io.get('selfSame', True):
+        return f'{meth} changed the original instance'
+    if io.get('othersSame') is False:
+        return f'{meth} changed another live instance'
+    if s.get('valid'):
+        if io['out'] != 'ok':
+            return f"{meth} raised {io['out']} for keyword arguments that name init fields"
+        if not io['sameClass']:
+            return f'{meth} returned an instance of another class'
+        exp = dict((n, e) for n, e in s['expect'])
+        for f in io['fields']:
+            e = exp.get(f[0])
+            if not f[1]:
+                return f'field f{f[0]} of the copy is unset'
+            if e == 'replaced' and f[4] is not True:
+                return f'{meth}: field f{f[0]} is not the object passed as keyword argument'
+            if e == 'sameObject' and f[2] is not True:
+                return f'{meth}: un-replaced field f{f[0]} is not the object held by the original (not shallow)'
+            if e == 'deepEqual' and f[8] is not True:
+                return f'{meth}: un-replaced field f{f[0]} differs from the original value'
+            if e == 'deepEqual' and f[7] != 0:
+                return f'{meth}: un-replaced field f{f[0]} shares {f[7]} mutable object(s) with the original (not deep)'
+            if e == 'deepEqual' and f[9] != 0:
+                return f'{meth}: un-replaced field f{f[0]} shares {f[9]} mutable object(s) with an instance that existed before (original / earlier copy)'
+            if e == 'equalOnly' and f[8] is not True:
+                return f'{meth}: init=False field f{f[0]} differs from the original value'
+    elif s.get('valid') is False and io['out'] == 'ok':
+        return f'{meth} accepted a keyword that is not an init field'
+    return None
 
 
 def _has_mutable(j):
@@ -1275,7 +1602,7 @@ def extra_coverage(results):
         t = c['x'].get('tag', '')
         shapes[t.split('/')[0]] = shapes.get(t.split('/')[0], 0) + 1
         o = (i.get('op') or {})
-        for x in ([o.get('out')] if 'out' in o else o.get('outs', [])):
+        for x in ([o.get('out')] if 'out' in o else o.get('outs', []) + [st.get('out') for st in o.get('steps', [])]):
             outs[str(x)] = outs.get(str(x), 0) + 1
     rej = {}
     for (c, i, m, j) in results:
